@@ -16,7 +16,7 @@ Layout layout() {
 	Layout l;
 	l.nReal = realSamples().size();
 	l.nMut = l.nReal * (size_t)p.mutPerSample;
-	l.nSyn = typeDB().names.size() * (size_t)NVERS * (size_t)p.synSeeds;
+	l.nSyn = typeDB().names.size() * nAllVers() * (size_t)p.synSeeds;
 	l.nApi = (size_t)p.apiModels;
 	return l;
 }
@@ -84,9 +84,9 @@ void run(size_t idx) {
 	idx -= l.nReal + l.nMut;
 	if (idx < l.nSyn) {
 		const TypeDB& db = typeDB();
-		size_t per = db.names.size() * (size_t)NVERS;
+		size_t per = db.names.size() * nAllVers();
 		size_t it = idx / per, rest = idx % per;
-		const VerInfo& v = VERS[rest / db.names.size()];
+		const VerInfo& v = verAt(rest / db.names.size());
 		const std::string& name = db.names[rest % db.names.size()];
 		uint64_t seed = mix(mix(g_cfg.seed ^ 0xC07, hashStr(name)), (rest / db.names.size()) * 1000 + it);
 		SynthOpts so;
